@@ -1294,6 +1294,43 @@ def chain_instance(meta):
     return dgs.has_grad and dgs.kind in ("mapped", "sub1d", "user", "step", "kl")
 
 
+FD_STENCIL = {-3: F(-1, 60), -2: F(9, 60), -1: F(-45, 60), 1: F(45, 60), 2: F(-9, 60), 3: F(1, 60)}
+
+
+def fd_case(cuqi, meta, q):
+    """finite differences of forward() in parameter space vs gradient() (the property's observation point), both taken from the
+    implementation: the 7-point central difference along an integer direction h is EXACT for polynomials of degree <= 6 (phi_F of degree
+    <= 3 after a geometry map of degree <= 2) on the integer / dyadic data generated, so d.(J h) from forward must equal gradient(d, w).h.
+    The Coq side compares both the difference quotient (J h) and the gradient (J^T d) with the matrix J of C12_gradient_is_transposed_
+    jacobian_of_forward.  meta: op=fd, mk, dg, rg, A, cs, b, w, h, d"""
+    dgs, rgs = Geo(**meta["dg"]), Geo(**meta["rg"])
+    model, _ = build_model(cuqi, meta, dgs.build(cuqi), rgs.build(cuqi))
+    w, h, d = ufs(meta["w"]), ufs(meta["h"]), ufs(meta["d"])
+    tol = F(1, 10 ** 9) if tol_cell(meta) else 0
+    fail, Jh, g = None, None, None
+    try:
+        Jh = [F(0)] * rgs.pdim
+        for k, ck in FD_STENCIL.items():
+            y = model.forward(np.array([float(a + k * b_) for a, b_ in zip(w, h)]))
+            Jh = [acc + ck * frac(float(v)) for acc, v in zip(Jh, np.asarray(y).ravel())]
+        gout = model.gradient(np.array([float(a) for a in d]), np.array([float(a) for a in w]))
+        g = [frac(float(v)) for v in np.asarray(gout).ravel()]
+        lhs = sum((a * b_ for a, b_ in zip(d, Jh)), F(0))
+        rhs = sum((a * b_ for a, b_ in zip(g, h)), F(0))
+        if abs(lhs - rhs) > tol * (1 + abs(rhs)) * 100:
+            fail = "gradient is not the transposed derivative of forward: direction.(J h) = %s from central differences of forward along h, gradient.h = %s" % (float(lhs), float(rhs))
+    except Exception as e:
+        fail = "forward / gradient raised %r on an instance where both exist" % (e,)
+    if Jh is None or g is None:
+        expr = "false"
+    else:
+        A_ = [[Fraction(a) for a in row] for row in meta["A"]]
+        common_ = "%s %s %s %s" % (cbool(bool(tol)), qm(A_), qv(ufs(meta["cs"])), dgs.coq())
+        expr = "check_fd %s %s %s %s && check_chain_rule %s %s %s %s" % (common_, qv(w), qv(h), cqvec(Jh), common_, qv(d), qv(w), cqvec(g))
+    return Case(expr=expr, meta=meta, cell="fd/%s/%s->%s" % (meta["mk"], dgs.name(), rgs.name()), kind="EXACT", impl_fail=fail,
+                signature="Model.gradient-vs-finite-differences-of-forward|%s:%s" % (dgs.name(), meta["mk"]) if fail else "")
+
+
 def chain_instance_imgF(meta):
     """gradient cells that are instances of C12_gradient_chain_rule_imgF (domain Image2D order F, not visual_only)"""
     dgs, rgs = Geo(**meta["dg"]), Geo(**meta["rg"])
@@ -1612,25 +1649,27 @@ def args_case(cuqi, meta, q):
 
 def rand_signatures(rng):
     """one valid Python parameter list for every combination of parameter kinds present (positional-only 0/1, positional-or-
-    keyword 0/1/2, *args, keyword-only 0/1, **kwargs) with a random placement of the defaults; the variadics and the
-    ordinary parameters draw their names from one pool that contains `args` and `kwargs`"""
+    keyword 0/1/2, *args, keyword-only 0/1, **kwargs) x number of required positional parameters {0, 1, all} x keyword-only
+    parameter defaulted or not (the structure -- hence the cell -- does not depend on the seed); the variadics and the ordinary
+    parameters draw their names from one pool that contains `args` and `kwargs` (seed dependent)"""
     out = []
     for n_po, n_pk, vp, n_ko, vk in itertools.product([0, 1], [0, 1, 2], [0, 1], [0, 1], [0, 1]):
-        names = ["x", "a", "y", "scale", "args", "kwargs", "rest", "options"]
-        rng.shuffle(names)
         npos = n_po + n_pk
-        for nreq in sorted({rng.randint(0, npos), min(1, npos)}):
-            nm = iter(names)
-            sig = []
-            for i in range(npos):
-                sig.append([next(nm), "po" if i < n_po else "pk", i >= nreq])
-            if vp:
-                sig.append([next(nm), "vp", False])
-            for _ in range(n_ko):
-                sig.append([next(nm), "ko", rng.random() < 0.6])
-            if vk:
-                sig.append([next(nm), "vk", False])
-            out.append(sig)
+        for nreq in sorted({0, min(1, npos), npos}):
+            for ko_default in ([False, True] if n_ko else [False]):
+                names = ["x", "a", "y", "scale", "args", "kwargs", "rest", "options"]
+                rng.shuffle(names)
+                nm = iter(names)
+                sig = []
+                for i in range(npos):
+                    sig.append([next(nm), "po" if i < n_po else "pk", i >= nreq])
+                if vp:
+                    sig.append([next(nm), "vp", False])
+                for _ in range(n_ko):
+                    sig.append([next(nm), "ko", ko_default])
+                if vk:
+                    sig.append([next(nm), "vk", False])
+                out.append(sig)
     return out
 
 
@@ -1745,6 +1784,8 @@ def classify(meta, detail):
     if op == "args":
         import cuqi
         return args_case(cuqi, m, None).signature or "get_non_default_args"
+    if op == "fd":
+        return "Model.gradient-vs-finite-differences-of-forward|%s:%s" % (Geo(**m["dg"]).name(), m["mk"])
     return "C12"
 
 
@@ -2531,6 +2572,19 @@ def run(ctx):
                 if mk == "dir":
                     meta["mstyle"] = ["wrtfirst", "dirfirst", "strip"][gi % 3]
                 add(gradient_case, meta)
+            if not (dg.kind == "image" and dg.d.get("order") == "F"):
+                # finite differences of forward() vs gradient(), integer direction h, for two model kinds per geometry
+                for mk in [["jac", "dir", "linfun"][gi % 3], ["pde_gw", "pde_jw", "linmat"][gi % 3]]:
+                    m_out = rng.choice([2, 3])
+                    rg = Geo(kind="cont1d", n=m_out)
+                    if not model_allowed(mk, dg, rg):
+                        continue
+                    mm = rand_model(rng, mk, dg.nfun, m_out)
+                    hh = [F(rng.randint(-1, 1)) for _ in range(dg.pdim)]
+                    if all(x == 0 for x in hh):
+                        hh[0] = F(1)
+                    add(fd_case, dict(op="fd", mk=mk, dg=dg.d, rg=rg.d, w=fs(rand_vec(rng, dg.pdim, halves=False)), h=fs(hh),
+                                      d=fs(rand_vec(rng, m_out, halves=False)), **mm))
             if dg.kind == "kl":
                 for dform, wform in [("arrpar", "arrpar"), ("par", "arrfun"), ("arrfun=copy", "par"), ("fun", "fun"), ("par", "arrpar=copy"), ("samples", "par")]:
                     mk = rng.choice(["jac", "dir", "linfun", "pde_gw"])
@@ -2615,6 +2669,8 @@ def oracle(ctx, meta):
         return bind_case(cuqi, m, probe(cuqi)).impl_fail
     if m.get("op") == "args":
         return args_case(cuqi, m, None).impl_fail
+    if m.get("op") == "fd":
+        return fd_case(cuqi, m, probe(cuqi)).impl_fail
     return None
 
 
@@ -2695,6 +2751,9 @@ def replay(ctx, meta):
     elif m.get("op") == "bind":
         c = bind_case(cuqi, m, q)
         print("verdict        :", c.impl_fail or "holds")
+    elif m.get("op") == "fd":
+        c = fd_case(cuqi, m, q)
+        print("verdict        :", c.impl_fail or "holds (direction.(J h) from central differences of forward = gradient.h)")
     elif m.get("op") == "args":
         c = args_case(cuqi, m, q)
         print("declaration    : def f(%s)" % sig_text(m["sig"]), "| cached _non_default_args:", m.get("cached"))
